@@ -57,6 +57,8 @@ var frags = map[string]frag{
 	"slget":    {src: "GslBack []int", dst: "Fslget []int", methods: "func (s *%T) Fslget() []int { return s.GslBack }\n"},
 	"slptr":    {src: "Fslptr []*int", dst: "Fslptr []*int"},
 	"slstruct": {src: "Fslstruct []EN", dst: "Fslstruct []EN"},
+	"slbyte":   {src: "Fslbyte []byte", dst: "Fslbyte []byte"},
+	"slbtag":   {src: "Fslbtag EDigest", dst: "Fslbtag EDigest"},
 	"slext":    {src: "Fslext []vrt.VInt", dst: "Fslext []vrt.VInt"},
 	"slextp":   {src: "Fslextp []*vrt.VS", dst: "Fslextp []*vrt.VS"},
 	"slnest":   {src: "Fsn EN5", dst: "Fsn EN6", scalars: []string{"Fsn.K:int"}},
@@ -125,6 +127,8 @@ type EN6 struct {
 }
 
 type ETags []string
+
+type EDigest []byte
 
 func CvV(i int) int { vrt.Call("CvV"); return i + 1000 }
 
